@@ -237,6 +237,34 @@ def plan(tier):
         jobs.append(Job('%s.L3.%s' % (PROP, tag), kname, r'^auto cnl::_impl::operator<<<cnl::_impl::wrapper<', c_shl(D, LR, R, tag), via=sname,
                         shim=sname, shim_types=[short_of(LR)], prop=PROP, timeout=120, layer=3,
                         oracle=(lambda D, LR, R: lambda a: None if not ((-(2 ** D - 1) if LR.signed else 0) <= a <= 2 ** D - 1) else ('value', a * 2 ** R))(D, LR, R)))
+    # elastic_integer OP built-in integer (either order): the integer is lifted to an elastic_integer of its own digits and SIGNEDNESS
+    # (seed C05_4: lifted with the elastic operand's signedness instead); exact result within the digits the result type reports
+    for (D, nn, b, order, ops_) in [(8, 'u32', 'i32', 'eb', ('add', 'subtract')), (8, 'u8', 'i8', 'be', ('add', 'multiply')), (7, 'i8', 'u8', 'eb', ('subtract', 'multiply'))] + \
+                                   ([(8, 'u32', 'i32', 'be', ('add', 'subtract')), (16, 'u16', 'i16', 'eb', ('add', 'subtract')), (15, 'i16', 'u32', 'be', ('add',))] if thorough else []):
+        N_, BT = T(nn), T(b)
+        ER = rep_of(D, N_)
+        A = 'cnl::elastic_integer<%d, %s>' % (D, cxx(nn))
+        for op in ops_:
+            sym = OPS[op]
+            tag = '%s_%s_%d%s_%s' % (order, op, D, nn, b)
+            if order == 'eb':
+                E = 'decltype(%s{} %s %s{})' % (A, sym, cxx(b))
+                body = 'return cnl::_impl::to_rep(cnl::_impl::from_rep<%s>(a) %s b);' % (A, sym)
+                params, types = [(short_of(ER), 'a'), (b, 'b')], [short_of(ER), b]
+                cargs = (op, D, ER, BT.digits, BT)
+            else:
+                E = 'decltype(%s{} %s %s{})' % (cxx(b), sym, A)
+                body = 'return cnl::_impl::to_rep(b %s cnl::_impl::from_rep<%s>(a));' % (sym, A)
+                params, types = [(b, 'b'), (short_of(ER), 'a')], [b, short_of(ER)]
+                cargs = (op, BT.digits, BT, D, ER)
+            src.append(fact_shim('dig_' + tag, 'cnl::digits_v<%s>' % E))
+            src.append(fact_shim('sgn_' + tag, 'cnl::numbers::signedness_v<%s>' % E))
+            src.append(fact_shim('bits_' + tag, 'sizeof(cnl::_impl::rep_of_t<%s>) * 8' % E))
+            sname = 'vp_' + tag
+            src.append(shim('auto', sname, params, body))
+            jobs.append(Job('%s.L3.%s' % (PROP, tag), kname, r'^auto cnl::_impl::operator[-+*]<', elastic_contract(*cargs, tag, 0), via=sname,
+                            shim=sname, shim_types=types, oracle=oracle(*cargs, tag), prop=PROP, timeout=300, layer=3,
+                            solvers=('minisat', 'cadical') if op == 'multiply' else ('minisat',)))
     # unary minus: -elastic_integer<D, N> is signed with D digits and holds -l exactly (whole public operator, everything inlined)
     for (D, nn) in [(7, 'i8'), (8, 'u8'), (16, 'u16'), (31, 'i32'), (32, 'u32'), (63, 'i64')] + ([(64, 'u64'), (1, 'u32'), (33, 'u32'), (20, 'u8'), (15, 'i16')] if thorough else []):
         N_ = T(nn)
